@@ -26,14 +26,16 @@ def deep_round_factory(tol):
       elif isinstance(j, dict): _args[i] = dict(zip(j.keys(), deep_round(*j.values())[0])) # keys need not be str
       elif isiterable(j): #XXX: fails on the above, so don't iterate them
         jtype = type(j)
-        _args[i] = jtype(deep_round(*j)[0])
+        try: _args[i] = jtype(deep_round(*j)[0])
+        except Exception: pass # can't rebuild (e.g. range, namedtuple): leave as is
     for i,j in kwds.items():
       if isinstance(j, float): _kwds[i] = round(j, tol)
       elif isinstance(j, (str, unicode, type(BaseException()))): continue
       elif isinstance(j, dict): _kwds[i] = dict(zip(j.keys(), deep_round(*j.values())[0])) # keys need not be str
       elif isiterable(j): #XXX: fails on the above, so don't iterate them
         jtype = type(j)
-        _kwds[i] = jtype(deep_round(*j)[0])
+        try: _kwds[i] = jtype(deep_round(*j)[0])
+        except Exception: pass # can't rebuild (e.g. range, namedtuple): leave as is
     return argstype(_args), _kwds
   return deep_round
 
